@@ -257,7 +257,7 @@ def per_circuit(chk, P, kname, c, fz, ft):
                 chk.ob("C11.Z.sensitization-endpoints", key, prob is None, file=FILE, func="sensitization_transform", line=fz.node.lineno, fact=prob or {"endpoint": e}, expect="sat == inverting n changes the selected endpoint")
             # the empty selection selects nothing: refused (the node is in the fan-in of no selected endpoint), or a `sat` that is
             # never 1 - not the comparison of every output that endpoints=None stands for
-            n0 = sorted(cone)[0]
+            n0 = sorted(cone)[0] if cone else e
             for empty, label in (([], "[]"), (set(), "set()")):
                 r = P.call(FILE, "sensitization_transform", c, n0, empty)
                 n_eval += 1
